@@ -81,6 +81,12 @@ pub fn packed_families() -> Vec<Fam> {
     }
     let pats: Pats = (0..40usize).map(|i| vec![b'a' + (i % 8) as u8, b'A' + (i / 8) as u8]).collect();
     v.push(fam("m2-40-patterns", pats));
+    // every pattern longer than a machine word has bits (the Rabin-Karp
+    // window is the shortest pattern), and longer than two vectors
+    let long = |n: usize, seed: u8| -> Vec<u8> { (0..n).map(|i| b'a' + ((i as u8).wrapping_mul(7).wrapping_add(seed) % 23)).collect() };
+    v.push(fam("m4-len65-66", vec![long(65, 1), long(66, 5)]));
+    v.push(fam("m4-len64-80", vec![long(64, 2), long(80, 9)]));
+    v.push(fam("m4-len129-200", vec![long(129, 3), long(200, 11), long(130, 3)]));
     v
 }
 
@@ -174,7 +180,8 @@ fn imax(mask: usize, thorough: bool) -> usize {
 
 /// Enumerate haystacks filler^i . core . filler^j and call `f(h, i)`.
 pub fn templates<F: FnMut(&[u8], usize, u8)>(core: &[u8], fills: &[u8], mask: usize, thorough: bool, mut f: F) {
-    let total_max = 2 * V + 8;
+    // long cores (patterns longer than two vectors) still get every offset
+    let total_max = (2 * V + 8).max(core.len() + V + mask + 2);
     let mut h: Vec<u8> = Vec::with_capacity(total_max + 8);
     for &fl in fills {
         for i in 0..=imax(mask, thorough) {
@@ -492,6 +499,21 @@ fn pfam(name: &str, pats: Vec<Vec<u8>>, ci: bool) -> PFam {
     PFam { name: name.to_string(), pats: f.pats, ci, alpha: f.alpha }
 }
 
+/// n prefix-free patterns with many distinct start bytes and lengths 4..=6
+/// (the packed prefilter's pattern-count thresholds: 16, 64, 128).
+fn pfam_n(name: &str, n: usize) -> PFam {
+    let pats: Pats = (0..n)
+        .map(|i| {
+            let mut p = vec![b'b' + (i % 20) as u8, [b'q', b'x', b'j', b'v', b'w'][i % 5], b'0' + ((i / 20) % 10) as u8, b'0' + (i % 10) as u8];
+            p.extend(std::iter::repeat(b'z').take(i % 3));
+            p
+        })
+        .collect();
+    let mut f = pfam(name, pats, false);
+    f.alpha = vec![b'b', b'0', b'k'];
+    f
+}
+
 /// Families aimed at each prefilter variant (memmem, start bytes 1/2/3, rare
 /// bytes 1/2/3, packed) and at "no prefilter"; several per variant so that a
 /// change of the selection heuristics moves coverage instead of removing it.
@@ -527,6 +549,10 @@ pub fn prefilter_families() -> Vec<PFam> {
         pfam("start-nonascii-only", vec![vec![0xC3, 0xA9, b't'], vec![0xE2, 0x82, 0xAC]], false),
         pfam("packed-nonascii", vec![vec![0xE9, b't', 0xE9], vec![b'n', b'a', 0xEF, b'v', b'e'], vec![0xFC, b'b', b'e', b'r'], vec![b'z', b'z', 0x80, b'z'], vec![0xFF, 0xFE, b'q']], false),
         pfam("rare-nonascii", vec![vec![b'e', 0xFF], vec![b' ', 0xFF], vec![b't', 0xFF, b'e']], false),
+        pfam_n("n17-packed", 17),
+        pfam_n("n65-packed", 65),
+        pfam_n("n129-packed", 129),
+        pfam_n("n140-packed", 140),
         pfam("ci-rare-offset", vec![b("aq"), b("bbbbq"), b("ccq")], true),
         pfam("ci-rare-offset-2", vec![b("zA"), b("eeeZa"), b("ttza")], true),
         pfam("ci-start", vec![b("ab"), b("ac")], true),
@@ -751,7 +777,8 @@ pub fn run_c05(rep: &Report) -> i32 {
         let cs = pcores(f, t);
         let mask = f.pats.iter().map(|p| p.len()).min().unwrap().min(4);
         let mut spans = vec![];
-        for core in &cs {
+        let step = if f.pats.len() > 24 && !t { 4 } else { 1 };
+        for core in cs.iter().step_by(step) {
             st.add("cores", 1);
             templates(core, &fills, mask, t, |h, i, _| {
                 span_forms(h.len(), i, core.len(), false, &mut spans);
